@@ -2,13 +2,17 @@
 from .. import common as C, generic as G
 from . import C17
 
-TRUSTED = C17.TRUSTED
-PERRUN = ['Char_model.v', 'C17.v']
+TRUSTED = C17.TRUSTED + ['translator/tables.py: guards of the subproblem-solver calls, try/except scopes and exit sites as source text', 'Python exception propagation semantics (an exception not caught by a try block propagates to the caller of solve)']
+
+
+def correspondence(ctx):
+    C17.correspondence(ctx, ctx.scale(64, 800), ctx.scale(30, 60))
+PERRUN = ['Char_model.v', 'C17.v', 'C08.v']
 GEN = ('Gen_util', 'Gen_model', 'Gen_tables')
 
 
 def run(ctx):
-    return G.run(ctx, 'C08', 'proof', GEN, PERRUN, TRUSTED)
+    return G.run(ctx, 'C08', 'proof', GEN, PERRUN, TRUSTED, correspondence=correspondence)
 
 
 def replay(payload):
